@@ -110,6 +110,21 @@ func genC40(c *Ctx, dir string) *c40case {
 			return "use str; each {|x| put (str:join , [(range 3)]) } [a b] | count"
 		case 36:
 			return fmt.Sprintf("var r = ?(order &key={|x| range %d | nop; fail after } [b a]); put $r | count", n)
+		case 37:
+			// A random chain of redirections on one form: the same fd redirected
+			// more than once, ports duplicated onto other fds before or after
+			// being replaced, closed fds, and an input file that may not exist
+			// (so a later redirection fails after earlier ones opened files).
+			redirs := []string{"> " + f1, "> " + f2, ">> " + f1, "2> " + f2, "2>&1", ">&2",
+				"3> " + f2, "3>&1", "2>&3", ">&-", "< " + f1, "<> " + f2}
+			code := "{ echo a; echo b >&2 }"
+			if w.Chance(1, 2) {
+				code = "echo w"
+			}
+			for i, k := 0, w.Range(2, 5); i < k; i++ {
+				code += " " + redirs[w.Draw(len(redirs))]
+			}
+			return code
 		default:
 			return fmt.Sprintf("var y = ?(range %d | each {|x| fail z }); put ok", n)
 		}
